@@ -15,7 +15,9 @@ TECHNIQUE = "lock-step differential monitor between an ordinary sketch, a shared
 RULE = ("case = (class, shape with odd byte sizes, number of views, how each view is attached (helpers.attach_shared_memory or "
         "attach_existing_shm), event list with the handle that executes each event, deletion order); non-trivial = the bookkeeping counters "
         "of the shape are unaligned (offset not a multiple of 8; heavy-hitter key area not a multiple of 4) or more than one handle executed "
-        "operations; distinct = by case digest")
+        "operations; distinct = by case digest; scenarios besides the lock-step one: an owner re-pointed at another owner's block and then "
+        "dropped; a helper view re-pointed (kept alive) followed by a second helper attach to the first block; a re-point to a missing "
+        "block (must raise, view stays attached); owner + view life cycle inside an os.fork() child")
 ASSUMPTIONS = ["all handles live in one process (cross-process attachment is exercised by the real spawned runs of C08/C19)",
                "the modules' sleep()/gc names are rebound by the harness so that dropping a handle does not cost 0.25 s; the segment checks use the real /dev/shm"]
 LEVEL_TEXT = ("All five classes with shapes chosen to misalign every region of the shared block; every operation is executed on the ordinary "
